@@ -159,7 +159,9 @@ Section Inv.
       intros _. split; [reflexivity|].
       subst ret. destruct (get_node g sid) as [nd|]; [|discriminate R].
       exists nd. split; [reflexivity|]. intros c ->. exact R.
-    - simpl. destruct (cf_ge20 (g_cf g)) eqn:GE.
+    - simpl. destruct (node_id_ok sid) eqn:NK; simpl;
+        [|exists g; exists false; split; [reflexivity|]; split; [exact I|]; split; [reflexivity|discriminate]].
+      destruct (cf_ge20 (g_cf g)) eqn:GE.
       + split_facts F. rewrite GE in F. simpl in F. apply member_some in F as [ip E]. rewrite E.
         destruct (route g (mkMsg sid system_child_id (vt_internal (tab g)) 0 ip [])) as [g1 r] eqn:RT.
         pose proof (route_ok g (mkMsg sid system_child_id (vt_internal (tab g)) 0 ip []) I) as [I1 C1].
